@@ -6,8 +6,12 @@
 
 mod shared;
 mod r_c01;
+mod r_c03;
 mod r_c04;
+mod r_c05;
 mod r_c14;
+mod r_c16;
+mod r_c17;
 
 use shared::src_trait::VecSrc;
 
@@ -22,32 +26,90 @@ fn esc(s: &str) -> String {
     serde_json::to_string(s).unwrap()
 }
 
-fn main() {
-    let args: Vec<String> = std::env::args().collect();
-    if args.len() < 3 {
-        eprintln!("usage: vreplay <harness> <v,v,v|->");
-        std::process::exit(2);
-    }
-    let vals: Vec<u8> = if args[2] == "-" {
-        vec![]
-    } else {
-        args[2].split(',').map(|x| x.trim().parse::<u64>().unwrap_or(0) as u8).collect()
-    };
-    let mut src = VecSrc::new(vals);
-    let harness = args[1].as_str();
-    let out = std::panic::catch_unwind(move || match harness {
-        h if h.starts_with("c01_stream_k1") => r_c01::stream(&mut src, 1, b"t"),
-        h if h.starts_with("c01_stream_k2") => r_c01::stream(&mut src, 2, b"t"),
-        h if h.starts_with("c01_stream_k3") => r_c01::stream(&mut src, 3, b""),
-        "c04_reply_paths" => r_c04::reply_paths(&mut src),
-        "c14_execute_step" => r_c14::execute_step(&mut src),
+fn run<S: shared::src_trait::Src>(harness: &str, src: &mut S) -> Outcome {
+    match harness {
+        h if h.starts_with("c02_cut") => r_c01::two_chunks(h[7..].parse().unwrap_or(0), src),
+        h if h.starts_with("c01_") || h.starts_with("c03_split") => r_c01::instance(h, src),
+        h if h.starts_with("c03_") => r_c03::run(h, src),
+        "c04_reply_paths" => r_c04::reply_paths(src),
+        "c05_gate" => r_c05::gate(src),
+        "c14_execute_step" => r_c14::execute_step(src),
+        h if h.starts_with("c16_activation") => r_c16::activation(src),
+        h if h.starts_with("c17_request") => r_c17::request(src),
+        h if h.starts_with("c17_reply") => r_c17::reply(src),
+        "c17_serviceinfo" => r_c17::serviceinfo(src),
+        "c17_description_reply" => r_c17::description(src),
+        "c17_stringset_deserialize" => r_c17::stringset(src, true),
+        "c17_stringset_serialize" => r_c17::stringset(src, false),
         _ => Outcome {
             reproduced: false,
             role: String::new(),
             scenario: String::new(),
             detail: format!("no native replayer for harness {}", harness),
         },
-    });
+    }
+}
+
+fn print(out: &Outcome, vals: &[u8]) {
+    println!(
+        "{{\"reproduced\": {}, \"role\": {}, \"scenario\": {}, \"detail\": {}, \"vals\": {:?}}}",
+        out.reproduced,
+        esc(&out.role),
+        esc(&out.scenario),
+        esc(&out.detail),
+        vals
+    );
+}
+
+fn main() {
+    let args: Vec<String> = std::env::args().collect();
+    if args.len() < 3 {
+        eprintln!("usage: vreplay <harness> <v,v,v|-|search>");
+        std::process::exit(2);
+    }
+    let harness = args[1].clone();
+    if args[2] == "search" {
+        // exhaustive native search for a reproducing assignment of the scenario's draws
+        let mut src = shared::src_trait::EnumSrc::new();
+        let mut tried = 0u64;
+        loop {
+            let h = harness.clone();
+            let r = {
+                let s = &mut src;
+                std::panic::catch_unwind(std::panic::AssertUnwindSafe(move || run(&h, s)))
+            };
+            tried += 1;
+            if src.not_enumerable {
+                println!("{{\"reproduced\": false, \"role\": \"\", \"scenario\": \"\", \"detail\": \"scenario draws raw bytes: not enumerable\"}}");
+                return;
+            }
+            if let Ok(out) = r {
+                if out.reproduced && !src.violated_assume {
+                    let vals = src.vals.clone();
+                    print(&out, &vals);
+                    return;
+                }
+            }
+            if !src.next() || tried > 500_000 {
+                break;
+            }
+        }
+        println!(
+            "{{\"reproduced\": false, \"role\": \"\", \"scenario\": \"\", \"detail\": \"no reproducing assignment among {} candidates\"}}",
+            tried
+        );
+        return;
+    }
+    let vals: Vec<u8> = if args[2] == "-" {
+        vec![]
+    } else {
+        args[2].split(',').map(|x| x.trim().parse::<u64>().unwrap_or(0) as u8).collect()
+    };
+    let mut src = VecSrc::new(vals.clone());
+    let out = {
+        let s = &mut src;
+        std::panic::catch_unwind(std::panic::AssertUnwindSafe(move || run(&harness, s)))
+    };
     let out = match out {
         Ok(o) => o,
         Err(_) => Outcome {
@@ -57,11 +119,5 @@ fn main() {
             detail: "replayer panicked".into(),
         },
     };
-    println!(
-        "{{\"reproduced\": {}, \"role\": {}, \"scenario\": {}, \"detail\": {}}}",
-        out.reproduced,
-        esc(&out.role),
-        esc(&out.scenario),
-        esc(&out.detail)
-    );
+    print(&out, &vals);
 }
